@@ -24,12 +24,17 @@ Record rtopic := { r_cur : N; r_parts : list (list N) }.   (* partition i = nth 
 Definition rt_init (count : nat) : rtopic := {| r_cur := 1; r_parts := repeat [] count |}.
 Definition pcount (t : rtopic) : N := nlen (r_parts t).
 
-Inductive rop := Send (p : partitioning) (msgs : list N) | AddParts (n : N) | DelParts (n : N).
+Inductive rop :=
+| Send (p : partitioning) (msgs : list N) | AddParts (n : N) | DelParts (n : N)
+| Restart                                   (* the topic is loaded again: contents stay, the rotation starts over at partition 1 *)
+| Purge                                     (* every partition is emptied, the rotation goes on *)
+| SendFull (p : partitioning) (msgs : list N).   (* a send refused because the topic is full: nothing stored, no partition chosen *)
 
 Inductive rout :=
 | RStored (pid : N)      (* all messages of the send stored in partition pid *)
 | RNothing               (* accepted, empty batch: nothing to store *)
-| RNoPartitions | RNotFound (pid : N) | RTooMany | ROk.
+| RNoPartitions | RNotFound (pid : N) | RTooMany | ROk
+| RRestarted | RPurged | RFull.
 
 Definition rstep (t : rtopic) (o : rop) : rtopic * rout :=
   match o with
@@ -56,6 +61,9 @@ Definition rstep (t : rtopic) (o : rop) : rtopic * rout :=
       if n =? 0 then (t, ROk)
       else let n' := N.min n (pcount t) in
            ({| r_cur := r_cur t; r_parts := firstn (N.to_nat (pcount t - n')) (r_parts t) |}, ROk)
+  | Restart => ({| r_cur := 1; r_parts := r_parts t |}, RRestarted)
+  | Purge => ({| r_cur := r_cur t; r_parts := map (fun _ => []) (r_parts t) |}, RPurged)
+  | SendFull _ _ => (t, RFull)
   end.
 
 Fixpoint rrun (t : rtopic) (ops : list rop) : rtopic * list rout :=
@@ -69,6 +77,7 @@ Definition rout_code (x : rout) : N * N :=
   match x with
   | RStored p => (0, p) | RNothing => (1, 0) | RNoPartitions => (2, 0)
   | RNotFound p => (3, p) | RTooMany => (4, 0) | ROk => (5, 0)
+  | RFull => (6, 0) | RRestarted => (7, 0) | RPurged => (8, 0)
   end.
 
 Definition rrun_obs (count : nat) (ops : list rop) : list (N * N) * list (list N) :=
@@ -151,6 +160,9 @@ Definition rmon_step (m : rmon) (x : rop * robs) : option rmon :=
       else if code =? 5
            then Some {| m_parts := firstn (N.to_nat (pc - N.min n pc)) (m_parts m); m_last := None; m_keys := m_keys m |}
            else None
+  | Restart => if code =? 7 then Some {| m_parts := m_parts m; m_last := None; m_keys := m_keys m |} else None
+  | Purge => if code =? 8 then Some {| m_parts := map (fun _ => []) (m_parts m); m_last := m_last m; m_keys := m_keys m |} else None
+  | SendFull _ _ => if (code =? 6) && list_eqb changed [] then Some m else None
   end.
 
 Fixpoint rmon_run (m : rmon) (l : list (rop * robs)) (i : N) : N + rmon :=
